@@ -132,6 +132,10 @@ def RandomKXOR(k, n, m, seed=None, planted_assignments=None, formula_class=CNF):
 
     if planted_assignments is None:
         planted_assignments = []
+    else:
+        # the assignments are scanned once per candidate parity: make
+        # sure that a one-shot iterable is not exhausted by the first scan
+        planted_assignments = list(planted_assignments)
 
     if k > n:
         raise ValueError("clauses width is {}, and we only have {} variables".format(k,n))
